@@ -15,12 +15,15 @@ from . import common, driver_sched
 from .common import Report, MachineryError, SPEC
 
 MODEL = {
-    "C08": (["naive2s", "over1", "pr1", "pp", "starter"], ["naive2", "naive1", "over", "pr", "pr2", "prs"]),
-    "C17": (["naive2", "naive2s", "naive1"], []),
-    "C18": (["over", "over1"], []),
-    "C12": (["pr1", "pp"], ["pr", "pr2", "prs"]),
-    "C16": (["pp"], []),
+    # property -> (quick configurations, additional ones in the thorough tier); *k: with kills from outside (Sched.tla, KillFromOutside)
+    "C08": (["naive2s", "over1", "pr1", "pp", "starter"], ["naive2", "naive1", "over", "pr", "pr2", "prs", "naive2sk", "over1k", "pr1k", "ppk"]),
+    "C17": (["naive2", "naive2s", "naive1", "naive2sk"], ["naive2k"]),
+    "C18": (["over", "over1", "over1k"], []),
+    "C12": (["pr1", "pp"], ["pr", "pr2", "prs", "pr1k", "ppk"]),
+    "C16": (["pp"], ["ppk"]),
 }
+# the configurations whose every initial state is also executed by the real code (without the kills: those are the drivers' business)
+XCFG = {p: ([c for c in q if not c.endswith("k")], [c for c in t if not c.endswith("k")]) for p, (q, t) in MODEL.items()}
 POLICIES = {
     "C08": ["naive", "priority", "priority-pool", "overbook", "starter"],
     "C12": ["priority", "priority-pool"],
@@ -74,9 +77,6 @@ def run_witnesses(rep, prop):
             raise MachineryError(f"vacuity: the bounded model MC_Sched_{cfgname} never reaches the situation {inv[2:]} (witness not refuted)")
         rep.extra.setdefault("witnesses_reached", []).append(f"{cfgname}:{inv}")
 
-
-# the configurations TLC model-checks for a property (MODEL) are also the ones whose every initial state is executed by the real code
-XCFG = MODEL
 
 # the naive policy never suspends: its share of pre-emption scenarios goes to DAGs whose branches run side by side on several pools
 FLAVOURS = {"C17": (("mixed", 0.4), ("tiny", 0.15), ("branchy", 0.35), ("herd", 0.1)),
